@@ -427,11 +427,14 @@ def run(res):
     badt = balancelib.coq_mismatches("c03t", "tcase", "t_mismatches", tcases)
     bads = balancelib.coq_mismatches("c03s", "scase", "s_mismatches", scases)
     byid = {sc["id"]: sc for sc in scs}
+    casetext = {("transition",) + t: x for t, x in tcases}
+    casetext.update({("state",) + t: x for t, x in scases})
+    casetext.update({("state-after-member-loss",) + t: x for t, x in ccases})
     for kind, bad in (("transition", badt), ("state", bads), ("state-after-member-loss", badc)):
         for (sid, step, part) in bad[:3]:
             sc = byid[sid]
             res.violation({"kind": "model-vs-impl", "what": kind, "cluster": sc["cluster"], "scenario": {"ops": sc["ops"]}, "failed_step": step,
-                           "partition": part, "op": sc["ops"][step],
+                           "partition": part, "op": sc["ops"][step], "model_case": casetext.get((kind, sid, step, part), "")[:6000],
                            "theorem_or_correspondence": "Model/BalanceRun.v %s on the abstracted white-box dump" % {"transition": "explains", "state": "state_ok"}.get(kind, "state_ok_crash"),
                            "_R": sc["_R"], "_nlive": sc["_nlive"], "_leave": sc["_leave"], "seed": res.seed}, no_input=True)
     res.coverage["model"] = dict(mstats, transition_cases=len(tcases), state_cases=len(scases), crash_state_cases=len(ccases),
